@@ -109,8 +109,10 @@ PrintRec ==
   /\ UNCHANGED <<ppos, pbuf, pat, pclock, ppend, pw, pcfg, pwire, pends>> /\ UNCHANGED dvars
 
 CutsFor(r) == Cuts[r] \cup {Len(pwire[r])}
-Next == \/ \E r \in RX : \E n \in CutsFor(r) : Deliver(r, n)
-        \/ \E r \in RX : DedupArrive(r)
+DeliverAny == \E r \in RX : \E n \in CutsFor(r) : Deliver(r, n)
+ArriveAny == \E r \in RX : DedupArrive(r)
+Next == \/ DeliverAny
+        \/ ArriveAny
         \/ Emit
         \/ PrintRec
         \/ Tick
